@@ -519,6 +519,31 @@ def check_split_routing(ctx):
                                ("_set_context", "_set_context", "receives the enclosing context")):
         fn = ctx.tree.func("lena.core.split", "LenaSplit." + meth)
         loops = [l for l in A.walk_local(fn) if isinstance(l, ast.For)]
+        comps = [c for c in A.walk_local(fn) if isinstance(c, ast.ListComp)]
+        if meth == "_get_context" and not loops and len(comps) == 1 and len(comps[0].generators) == 1 \
+                and isinstance(comps[0].generators[0].target, ast.Name):
+            # the collecting loop as one expression: [seq._get_context() for seq in self._seqs if hasattr(seq, '_get_context')]
+            g = comps[0].generators[0]
+            var = g.target.id
+            order = K.iter_order(g.iter, "self._seqs")
+            if order == "unknown":
+                ctx.unknown("C13-f", comps[0], "LenaSplit.%s iterates `%s`" % (meth, A.src(g.iter)))
+                continue
+            ctx.check("C13-f", order == "forward", comps[0], "LenaSplit.%s iterates `%s`, not every branch of self._seqs" % (meth, A.src(g.iter)),
+                      detail="LenaSplit.%s visits every branch" % meth, construct="%s-iter" % meth)
+            filt = [t for i in g.ifs for t, pol in A.literals(i, True)]
+            pols = [pol for i in g.ifs for t, pol in A.literals(i, True)]
+            only_has = len(filt) == 1 and pols == [True] and isinstance(filt[0], ast.Call) and res.call_canon(filt[0]) == "builtins.hasattr" \
+                and len(filt[0].args) == 2 and A.src(filt[0].args[0]) == var and A.const(filt[0].args[1]) == callee
+            elt = comps[0].elt
+            okc = only_has and isinstance(elt, ast.Call) and isinstance(elt.func, ast.Attribute) and elt.func.attr == callee \
+                and A.src(elt.func.value) == var and not elt.args and not elt.keywords
+            ctx.check("C13-f", okc, comps[0], "LenaSplit.%s: `%s` does not collect the context of every branch that has %s (and only the "
+                      "hasattr test may exclude a branch: an empty context of one branch makes the common context empty)"
+                      % (meth, A.short(comps[0], 80), callee), detail="LenaSplit.%s: a branch with %s %s" % (meth, callee, what),
+                      construct="%s-comp" % meth)
+            comp_holder = comps[0]
+            continue
         if not ctx.require(len(loops) == 1 and isinstance(loops[0].target, ast.Name), "C13-f", fn,
                            "LenaSplit.%s: expected one loop over the branches" % meth):
             continue
@@ -567,8 +592,10 @@ def check_split_routing(ctx):
     fn = ctx.tree.func("lena.core.split", "LenaSplit._get_context")
     inter = [c for c in A.walk_local(fn) if isinstance(c, ast.Call) and res.call_canon(c) == "lena.context.functions.intersection"]
     apps = [c for c in A.walk_local(fn) if isinstance(c, ast.Call) and isinstance(c.func, ast.Attribute) and c.func.attr == "append"]
-    ok = len(inter) == 1 and len(apps) == 1 and len(inter[0].args) == 1 and isinstance(inter[0].args[0], ast.Starred) \
-        and A.src(inter[0].args[0].value) == A.src(apps[0].func.value) and not inter[0].keywords \
+    lcs = [a for a in A.walk_local(fn) if isinstance(a, ast.Assign) and isinstance(a.value, ast.ListComp) and len(a.targets) == 1]
+    collected = A.src(apps[0].func.value) if len(apps) == 1 else (A.src(lcs[0].targets[0]) if (not apps and len(lcs) == 1) else None)
+    ok = len(inter) == 1 and collected is not None and len(inter[0].args) == 1 and isinstance(inter[0].args[0], ast.Starred) \
+        and A.src(inter[0].args[0].value) == collected and not inter[0].keywords \
         and A.enclosing(inter[0], (ast.For, ast.While, ast.If)) is None
     ctx.check("C13-f", ok, fn, "LenaSplit._get_context does not return intersection(*<contexts of all branches>) (level-limited or "
               "partial intersection)", detail="common context = intersection of all collected contexts", construct="get-intersection")
